@@ -208,6 +208,21 @@ CLAIMED = {
         "note": "LP64 build; guard recognition is syntactic-structural (dominating comparison on the same expression text).",
         "design_ref": "DESIGN.md section 3 / C18, rules R10, R12",
     },
+    "C10": {
+        "technique": "table and dominance rules over the hint parser's CFG: per-hint accepted-domain extraction "
+                     "(repair tests after the parse) compared with a consumer-domain table, must-pass-through rule "
+                     "for the report-back calls, reaching-definition rule on the reported string",
+        "text": "Decides only the hint-table clauses: for every hint parsed in ncmpio_set_pnetcdf_hints the values "
+                "the parser lets through lie inside the domain its consumers are total on (hash sizes >= 1, alignments "
+                "and aggregator counts >= 0), so that no hint value can change an error code or crash; every hint key "
+                "read is written to info_used on every path; and the string reported (there and in ncmpio_inq_misc) "
+                "is printed from the field holding the value in force. Equality of file content / read data / error "
+                "codes across configurations is differential and is NOT decided; independence of the collective "
+                "structure from safe mode and process count is decided under C08.",
+        "note": "The consumer-domain table is hand-confirmed from the consumers (hash & (size-1), D_RNDUP, "
+                "nprocs / num_aggrs_per_node); a parsed hint with no table entry is reported.",
+        "design_ref": "DESIGN.md section 3 / C10",
+    },
 }
 
 NA_REASON = {
